@@ -1,6 +1,8 @@
-(* widths of a Unicode scalar value in UTF-8 bytes and UTF-16 code units *)
+(* widths of a Unicode scalar value in UTF-8 bytes and UTF-16 code units, as Rust's str::len() and
+   str::encode_utf16().count() add them up per char *)
 From Coq Require Import NArith.
-Open Scope N_scope.
+Local Open Scope N_scope.
 Definition width_utf8 (c : N) : nat :=
   if c <? 128 then 1%nat else if c <? 2048 then 2%nat else if c <? 65536 then 3%nat else 4%nat.
 Definition width_utf16 (c : N) : nat := if c <? 65536 then 1%nat else 2%nat.
+Definition width_chars (c : N) : nat := 1%nat.
